@@ -62,7 +62,8 @@ def configureTxTxin (h : HashCtx) (tc : TapCtx) (tx txin : Tx) (idx vout : Nat) 
     match wstack.getLast? with
     | none =>
       -- legacy
-      some { sigver := .BASE, script := scriptSig, successor := scriptPubKey, amount := amount }
+      if !hasValidOps scriptSig then none
+      else some { sigver := .BASE, script := scriptSig, successor := scriptPubKey, amount := amount }
     | some wlast =>
       -- segwit: which script carries the witness program
       let validation? : Option Bytes :=
@@ -72,6 +73,7 @@ def configureTxTxin (h : HashCtx) (tc : TapCtx) (tx txin : Tx) (idx vout : Nat) 
           | none => none
           | some g1 =>
             if g1.data.length == 0 then none
+            else if !g1.rest.isEmpty || scriptSig != pushData g1.data then none   -- not exactly one push of the redeem script
             else
               match getOp scriptPubKey with
               | none => none
@@ -112,7 +114,8 @@ def configureTxTxin (h : HashCtx) (tc : TapCtx) (tx txin : Tx) (idx vout : Nat) 
                         (([Op.OP_DUP, Op.OP_HASH160].map UInt8.ofNat) ++ pushProgram program ++ ([Op.OP_EQUALVERIFY, Op.OP_CHECKSIG].map UInt8.ofNat),
                          wstack.length, true)
                       else (wlast, wstack.length - 1, false)
-                    if !hasValidOps validation' then none
+                    if (wstack.take toStack).any (fun i => i.length > Gen.MAX_SCRIPT_ELEMENT_SIZE) then none
+                    else if !hasValidOps validation' then none
                     else some { sigver := .WITNESS_V0, script := validation', stack := wstack.take toStack, amount := amount,
                                 hasPreamble := pre }
                 else
@@ -141,6 +144,8 @@ def configureTxTxin (h : HashCtx) (tc : TapCtx) (tx txin : Tx) (idx vout : Nat) 
                         else
                           let tce := Tce.init tc control program leafScript
                           if (byteAt control 0) &&& Gen.TAPROOT_LEAF_MASK != Gen.TAPROOT_LEAF_TAPSCRIPT then none   -- "unable to determine v1 script type"
+                          else if rest.length > Gen.MAX_STACK_SIZE then none
+                          else if rest.any (fun i => i.length > Gen.MAX_SCRIPT_ELEMENT_SIZE) then none
                           else if !hasValidOps leafScript then none
                           else
                             let ed' := { ed with tapleafHash := tce.leaf, tapleafHashInit := true,
